@@ -60,6 +60,9 @@ type NormOpts struct {
 // AllNorm switches every rewrite on.
 var AllNorm = NormOpts{DropLogs: true, IncDec: true, OpAssign: true, VarDefine: true, SortBool: true, IfElse: true, ErrText: true}
 
+// constants InlineConsts leaves alone (a tool that treats some constants by name lists them here)
+var astnormKeepConst = map[string]bool{}
+
 // canonical names of function-local objects, filled by NormalizeFile / IndexLocals
 var astnormCanon = map[*ast.Object]string{}
 
@@ -344,7 +347,7 @@ func (nz *normalizer) stmt(s ast.Stmt) ast.Stmt {
 						vs.Values[i] = nz.expr(vs.Values[i])
 					}
 					if nz.o.VarDefine && gd.Tok == token.VAR && len(vs.Names) == 1 && len(vs.Values) == 1 && vs.Type != nil {
-						if t, ok := vs.Type.(*ast.Ident); ok && basicNumeric[t.Name] && isZeroLit(vs.Values[0]) {
+						if t, ok := vs.Type.(*ast.Ident); ok && basicNumeric[t.Name] && astnormZeroLit(vs.Values[0]) {
 							vs.Values = nil
 						}
 					}
@@ -407,7 +410,7 @@ func (nz *normalizer) stmt(s ast.Stmt) ast.Stmt {
 
 func (nz *normalizer) varDecl(id *ast.Ident, typ ast.Expr, val ast.Expr, pos token.Pos) ast.Stmt {
 	vs := &ast.ValueSpec{Names: []*ast.Ident{id}, Type: typ}
-	if val != nil && !isZeroLit(val) {
+	if val != nil && !astnormZeroLit(val) {
 		vs.Values = []ast.Expr{val}
 	}
 	return &ast.DeclStmt{Decl: &ast.GenDecl{TokPos: pos, Tok: token.VAR, Specs: []ast.Spec{vs}}}
@@ -493,7 +496,7 @@ func isNumLit(e ast.Expr) bool {
 	return ok && (bl.Kind == token.INT || bl.Kind == token.FLOAT)
 }
 
-func isZeroLit(e ast.Expr) bool {
+func astnormZeroLit(e ast.Expr) bool {
 	bl, ok := e.(*ast.BasicLit)
 	if !ok || (bl.Kind != token.INT && bl.Kind != token.FLOAT) {
 		return false
@@ -540,7 +543,7 @@ var fmtVerb = regexp.MustCompile(`%[+\-# 0]*(\[\d+\])?[\d*]*(\.[\d*]+)?[a-zA-Z]`
 func (nz *normalizer) expr(e ast.Expr) ast.Expr {
 	switch x := e.(type) {
 	case *ast.Ident:
-		if nz.o.InlineConsts && x.Obj != nil && x.Obj.Kind == ast.Con && !astnormField[x] {
+		if nz.o.InlineConsts && x.Obj != nil && x.Obj.Kind == ast.Con && !astnormField[x] && !astnormKeepConst[x.Name] {
 			if vs, ok := x.Obj.Decl.(*ast.ValueSpec); ok && vs.Type == nil && len(vs.Values) == len(vs.Names) {
 				for i, nm := range vs.Names {
 					if nm.Obj == x.Obj {
